@@ -291,6 +291,29 @@ func C01(r *core.Run) {
 				mu.Unlock()
 			}(k)
 		}
+		// ... and two clients whose requests nominate, in their own Connection field, names that every other request of the round
+		// uses end to end (X-Tok, and the response's trailer name): what one client declares hop-by-hop for its own message
+		// must not touch anybody else's
+		for k := 0; k < 2; k++ {
+			wg.Add(1)
+			go func(k int) {
+				defer wg.Done()
+				time.Sleep(time.Duration(60+k*400) * time.Millisecond)
+				tok := fmt.Sprintf("s%dr%dnom%d", r.Seed, round, k)
+				raw := tokRequest("GET", tok, 2000, 0, "h"+tok+".example", nil, []rawhttp.Field{{Name: "Connection", Value: []string{"X-Tok, X-Tok-Trailer", "keep-alive, x-tok, Set-Cookie, X-Tok-Trailer"}[k]}})
+				cl := rawhttp.NewClient(t.addr, 12*time.Second)
+				defer cl.Close()
+				t0 := time.Now()
+				m, err := cl.Do(raw, "GET")
+				res := result{tok: tok, method: "GET", size: 2000, err: err, ms: time.Since(t0).Milliseconds()}
+				if err == nil {
+					res.bad = checkTokResponse(m, "GET", tok, 2000)
+				}
+				mu.Lock()
+				results = append(results, res)
+				mu.Unlock()
+			}(k)
+		}
 		// ... and uploads that pause: the client sends a good part of a 60-90 KB body and then nothing for as long as the
 		// round's other clients are at work (25 s at most), then the rest; everybody else must be served meanwhile, and
 		// the paused upload's own response must be its own
@@ -398,6 +421,9 @@ func C01(r *core.Run) {
 			}
 			count[s.Tok]++
 			order = append(order, s.Tok)
+			if strings.Contains(s.Tok, "nom") {
+				continue // this client declared its own X-Tok field hop-by-hop
+			}
 			if len(s.HdrTok) != 1 || s.HdrTok[0] != s.Tok {
 				r.Violate("C01:backend-request-mixed", fmt.Sprintf("backend saw path token %s with header token %v", s.Tok, s.HdrTok), s, nil)
 			}
